@@ -24,6 +24,7 @@ import (
 //
 //verif:replace (*github.com/parquet-go/parquet-go/encoding/thrift.Decoder).Decode => verifFPDecodeHeader
 //verif:replace (*FilePages).readDataPageV2 => verifFPReadDataPage
+//verif:replace (*FilePages).readEncryptedPage => verifFPReadEncryptedPage
 
 const verifHdrLen = 3
 
@@ -174,6 +175,104 @@ func VerifH_C08_filePagesSeekRead() {
 	vCover("history")
 }
 
+// C18.K3: encrypted columns. The page at stream position i was sealed by the
+// writer with page ordinal i (row group and column ordinals fixed); the reader
+// must use the same ordinal for the AAD after any history of seeks and reads.
+// readEncryptedPage is replaced by a model that "authenticates" with the
+// ordinal the reader currently holds.
+var verifFPAuthFailed bool
+
+func verifFPReadEncryptedPage(f *FilePages) (*format.PageHeader, *buffer[byte], error) {
+	pos := verifFPStreamPos(f)
+	for i, pg := range verifFPTable {
+		if pg.offset == pos {
+			if int(f.dec.dataPageOrd) != i {
+				verifFPAuthFailed = true
+				return nil, nil, errors.New("model AEAD: authentication failed (page ordinal mismatch)")
+			}
+			if _, err := f.rbuf.Discard(verifHdrLen); err != nil {
+				return nil, nil, err
+			}
+			h := &format.PageHeader{Type: format.DataPageV2, CompressedPageSize: int32(pg.rows), UncompressedPageSize: int32(pg.rows)}
+			h.DataPageHeaderV2.Valid = true
+			h.DataPageHeaderV2.V.NumRows = int32(pg.rows)
+			h.DataPageHeaderV2.V.NumValues = int32(pg.rows)
+			page := buffers.get(int(pg.rows))
+			if _, err := io.ReadFull(f.rbuf, page.data.Slice()); err != nil {
+				page.unref()
+				return nil, nil, err
+			}
+			f.dec.dataPageOrd++
+			return h, page, nil
+		}
+	}
+	end := verifFPTable[len(verifFPTable)-1]
+	if pos >= end.offset+verifHdrLen+end.rows {
+		return nil, nil, io.EOF
+	}
+	verifFPBroken = true
+	return nil, nil, errors.New("stream is not positioned at the start of a page")
+}
+
+func VerifH_C18_ordinalsThroughSeeks() {
+	vUnwind(64)
+	P := vChoose("pages", 1, 3)
+	table := make([]verifPageInfo, P)
+	var stream []byte
+	var total int64
+	locs := make([]format.PageLocation, P)
+	for i := 0; i < P; i++ {
+		rows := int64(vChoose("pageRows", 1, 2))
+		table[i] = verifPageInfo{offset: int64(len(stream)), firstRow: total, rows: rows}
+		locs[i] = format.PageLocation{Offset: int64(len(stream)), CompressedPageSize: int32(verifHdrLen + rows), FirstRowIndex: total}
+		stream = append(stream, 0xEE, 0xEE, 0xEE)
+		for k := int64(0); k < rows; k++ {
+			stream = append(stream, byte(i))
+		}
+		total += rows
+	}
+	verifFPTable, verifFPBroken, verifFPAuthFailed = table, false, false
+	chunk := &FileColumnChunk{column: &Column{path: columnPath{"root", "col"}}}
+	if vChoose("offsetIndex", 0, 1) == 1 {
+		chunk.offsetIndex.Store(&FileOffsetIndex{index: &format.OffsetIndex{PageLocations: locs}})
+	}
+	f := &FilePages{chunk: chunk, lastPageIndex: -1, dec: &filePagesDecryptionState{key: []byte("k")}}
+	f.section = *io.NewSectionReader(bytes.NewReader(stream), 0, int64(len(stream)))
+	f.rbuf = bufio.NewReaderSize(&f.section, 16)
+	verifFP = f
+	expect := int64(0)
+	for op := 0; op < 4; op++ {
+		if vChoose("op", 0, 1) == 0 {
+			k := int64(vChoose("seek", 0, int(total)-1))
+			if err := f.SeekToRow(k); err != nil {
+				vAssert(false, "seek within the chunk succeeds")
+				return
+			}
+			expect = k
+			continue
+		}
+		p, err := f.ReadPage()
+		if expect >= total {
+			vAssert(err == io.EOF, "reading at the end reports EOF")
+			return
+		}
+		vAssert(!verifFPAuthFailed, "the reader opens each page with the ordinal the writer sealed it with")
+		vAssert(!verifFPBroken, "stream stays aligned on page boundaries")
+		vAssert(err == nil && p != nil, "reading an encrypted page of an untampered file succeeds")
+		if err != nil || p == nil {
+			return
+		}
+		mp, ok := p.(*verifModelPage)
+		if !ok {
+			vAssert(false, "page comes from the model decoder")
+			return
+		}
+		vAssert(mp.first == expect, "the page returned starts at the expected row")
+		expect = mp.first + mp.n
+	}
+	vCover("history")
+}
+
 // Native re-enactment on a real file: an int64 column whose pages have exactly
 // the model's row counts (the column writer is flushed after each page), on
 // which the counterexample's operation history is replayed literally through
@@ -258,6 +357,84 @@ func VerifS_C08_filePagesSeekRead() {
 			}
 		}
 		vAssert(expect+int64(n) == end, "the page returned ends where its source page ends")
+		expect += int64(n)
+	}
+	vCover("scenario")
+}
+
+type verifKeys struct{ key []byte }
+
+func (k verifKeys) FooterKey([]byte) ([]byte, error)           { return k.key, nil }
+func (k verifKeys) ColumnKey([]string, []byte) ([]byte, error) { return k.key, nil }
+
+// Native re-enactment of C18.K3 on a real encrypted file (real AES-GCM): pages
+// with the model's row counts, the history replayed literally; every read of
+// the untampered file must succeed and return the expected rows.
+func VerifS_C18_ordinalsThroughSeeks() {
+	type row struct{ A int64 }
+	key := []byte("0123456789abcdef")
+	np, _ := vReplayVal("pages", 0)
+	buf := new(bytes.Buffer)
+	w := NewGenericWriter[row](buf, DataPageVersion(2), WithEncryption(&EncryptionConfig{FooterKey: key, EncryptedFooter: true}))
+	var total int64
+	for i := 0; i < int(np); i++ {
+		n, _ := vReplayVal("pageRows", i)
+		rows := make([]row, n)
+		for k := range rows {
+			rows[k].A = total + int64(k)
+		}
+		total += int64(n)
+		if _, err := w.Write(rows); err != nil {
+			vAssert(false, "scenario: write")
+			return
+		}
+		if err := w.ColumnWriters()[0].Flush(); err != nil {
+			vAssert(false, "scenario: page flush")
+			return
+		}
+	}
+	if err := w.Close(); err != nil {
+		vAssert(false, "scenario: close")
+		return
+	}
+	data := buf.Bytes()
+	f, err := OpenFile(bytes.NewReader(data), int64(len(data)), WithDecryption(verifKeys{key}))
+	if err != nil {
+		vAssert(false, "scenario: open")
+		return
+	}
+	pages := f.RowGroups()[0].ColumnChunks()[0].Pages()
+	defer pages.Close()
+	expect := int64(0)
+	seeks := 0
+	for op := 0; ; op++ {
+		kind, ok := vReplayVal("op", op)
+		if !ok {
+			break
+		}
+		if kind == 0 {
+			k, _ := vReplayVal("seek", seeks)
+			seeks++
+			if err := pages.SeekToRow(int64(k)); err != nil {
+				vAssert(false, "scenario: seek within the chunk succeeds")
+				return
+			}
+			expect = int64(k)
+			continue
+		}
+		pg, err := pages.ReadPage()
+		if expect >= total {
+			vAssert(err == io.EOF, "reading at the end reports EOF")
+			return
+		}
+		vAssert(err == nil && pg != nil, "reading an encrypted page of an untampered file succeeds")
+		if err != nil || pg == nil {
+			return
+		}
+		vals := make([]Value, pg.NumValues())
+		n, _ := pg.Values().ReadValues(vals)
+		Release(pg)
+		vAssert(n > 0 && vals[0].Int64() == expect, "the page returned starts at the expected row")
 		expect += int64(n)
 	}
 	vCover("scenario")
